@@ -188,6 +188,41 @@ def rule_unsupported(chk, prog, tier):
         runs = explore(prog, run_store, M2, max_runs=2)
         r.instance(runs[0].outcome == 'terminal:error', 'rejected-store:%s' % qn, 'qbe.c:%s' % fs_.get('line'), 'a store through a %s lvalue must be diagnosed; got %s' % (qn, runs[0].outcome))
     fe = prog.require_func('funcexpr')
+    # every expression form that stores: the qualifiers handed to funcstore are those of the designated object (x = v, x++, ++x, and the same through a bit-field designator)
+    for form in ('assign', 'post-increment', 'pre-decrement'):
+        for target in ('object', 'bit-field'):
+            for qn in ('QUALVOLATILE', 'QUALCONST'):
+                def run_form(it, form=form, target=target, qn=qn):
+                    w = World(prog, it=it, target='x86_64-sysv')
+                    x = it.call('mkunaryexpr', [ev(prog, 'TMUL'), w.temp(w.mkptr(w.t('int'), ev(prog, qn)), 'p')])       # *p with p a pointer to a qualified int
+                    if target == 'bit-field':
+                        # what postfixexpr builds for s.b with s (or b) qualified: interpret the real member access
+                        pf = prog.require_func('postfixexpr', 'expr.c')
+                        st = w.mkstruct(size=4, align=4)
+                        m = Obj('member', 'heap'); m.f.update({('name',): Ptr(it.mkstr(list(b'b'), 'b'), (0,)), ('type',): w.t('int'), ('qual',): 0, ('offset',): 0, ('bits', 'before'): 0, ('bits', 'after'): 29, ('bitfield',): 1, ('next',): None})
+                        st.obj.f[('u', 'structunion', 'members')] = Ptr(m, ())
+                        base = w.temp(w.mkptr(st, ev(prog, qn)), 'ps')
+                        seq = ['TARROW', 'TIDENT', 'TSEMICOLON']; stt = {'i': 0}; tokobj = it.gobj('tok')
+                        def load():
+                            k = seq[min(stt['i'], 2)]; tokobj.f[('kind',)] = ev(prog, k)
+                            tokobj.f[('lit',)] = Ptr(it.mkstr(list(b'b'), 'b'), (0,)) if k == 'TIDENT' else None
+                            tokobj.f[('loc', 'file')] = None; tokobj.f[('loc', 'line')] = 1; tokobj.f[('loc', 'col')] = 1
+                        it.models['next'] = lambda i2, a, e_: (stt.__setitem__('i', stt['i'] + 1), load(), None)[2]
+                        it.models['free'] = lambda i2, a, e_: None
+                        load()
+                        x = it.call(pf, [Ptr(Obj('scope', 'heap'), ()), base])
+                    if form == 'assign':
+                        e = w.mkexpr('EXPRASSIGN', w.t('int'), None, u__assign__l=x, u__assign__r=w.mkexpr('EXPRCONST', w.t('int'), u__constant__u=1))
+                    else:
+                        e = w.mkexpr('EXPRINCDEC', w.t('int'), x, op=ev(prog, 'TINC' if form.startswith('post') else 'TDEC'), u__incdec__post=int(form.startswith('post')))
+                    blk = Obj('block', 'heap'); blk.f[('jump', 'kind')] = 0
+                    f = Obj('func', 'heap'); f.f[('end',)] = Ptr(blk, ())
+                    it.models['calcvla'] = lambda i2, a, e2: None
+                    it.call(fe, [Ptr(f, ()), e]); return 'accepted'
+                runs = explore(prog, run_form, M2, max_runs=2, on_unsupported='keep')
+                key = 'rejected-store:%s of a %s %s' % (form, qn[4:].lower(), target)
+                if len(runs) != 1 or runs[0].outcome == 'unsupported': raise AnalysisBroken('%s: %s' % (key, [(x_.outcome, x_.detail) for x_ in runs][:2]))
+                r.instance(runs[0].outcome == 'terminal:error', key, 'qbe.c:%s' % fe.get('line'), 'the store must be diagnosed (const: constraint; volatile: not supported); cproc lowers it: %s' % runs[0].outcome)
     def run_vaarg(it):
         w = World(prog, it=it, target='x86_64-sysv')
         ap = w.temp(w.mkptr(w.t('int')), 'ap')
